@@ -43,6 +43,7 @@ func (sm *seatManager) RandomAssignSeats(playerIDs []string) error {
 		return err
 	}
 
+	verifHook(sm, "random.validated")
 	for i := 0; i < len(playerIDs); i++ {
 		playerID := playerIDs[i]
 		seatID := seatIDs[i]
@@ -110,6 +111,7 @@ func (sm *seatManager) AssignSeats(playerSeatIDs map[string]int) error {
 		}
 	}
 
+	verifHook(sm, "assign.validated")
 	// assign seats to all players
 	for playerID, seatID := range playerSeatIDs {
 		sp := sm.newSeatPlayer(playerID)
